@@ -15,6 +15,12 @@ def build():
 
 def run_witness(w):
     """w: dict(src, oracle, opts{}, range, contains, sweep). returns (violated, result json)"""
+    if w.get("kind") == "cli":
+        import cli_witness
+        ok, err = cli_witness.build()
+        if not ok:
+            return False, dict(error="stylua binary does not build: " + err[-500:])
+        return cli_witness.run_witness(w)
     with tempfile.TemporaryDirectory(prefix="vxw", dir=os.path.join(ROOT, ".build")) as d:
         f = os.path.join(d, "w.lua")
         open(f, "w").write(w["src"])
@@ -56,6 +62,12 @@ def make_replay(prop, failure, registry):
     rec = dict(property=prop, obligation=label, statement=failure.get("text"), unit=failure["unit"], feature_set=failure["fs"],
                function=diag.get("fn"), file=diag.get("file"), verifier_message=diag.get("message"),
                verifier_output=diag.get("rendered"), source_line=diag.get("text"), found_input=False, witness_runs=[])
+    if failure.get("scenario"):
+        rec["found_input"] = True
+        rec["failing_input"] = dict(kind="cli", scenario=failure["scenario"].get("scenario"), result=failure.get("scenario_result"))
+        last_found_input = True
+        json.dump(rec, open(path, "w"), indent=1)
+        return path
     if failure.get("kani"):
         rec["kani_counterexample"] = failure["kani"]
         rec["found_input"] = bool(failure["kani"].get("concrete"))
@@ -76,7 +88,7 @@ def make_replay(prop, failure, registry):
                 rec["witness_runs"].append(dict(witness=w, violated=v, result=j if v else dict(runs=len(j.get("runs", [])))))
                 if v:
                     rec["found_input"] = True
-                    rec["failing_input"] = dict(src=w["src"], opts=w.get("opts"), range=w.get("range"), oracle=w.get("oracle", "tree"), result=j)
+                    rec["failing_input"] = dict(src=w.get("src"), kind=w.get("kind"), scenario=w.get("scenario"), opts=w.get("opts"), range=w.get("range"), contains=w.get("contains"), oracle=w.get("oracle", "tree"), result=j)
                     last_found_input = True
                     break
     json.dump(rec, open(path, "w"), indent=1)
@@ -91,7 +103,7 @@ def rerun(path):
     ok, err = build()
     if not ok:
         print("cannot build replay crate:", err); return 2
-    v, j = run_witness(dict(src=fi["src"], opts=fi.get("opts"), range=fi.get("range"), oracle=fi.get("oracle"), contains=fi.get("contains")))
+    v, j = run_witness(dict(src=fi.get("src"), kind=fi.get("kind"), scenario=fi.get("scenario"), opts=fi.get("opts"), range=fi.get("range"), oracle=fi.get("oracle"), contains=fi.get("contains")))
     print(json.dumps(j, indent=1)[:4000])
     print("REPRODUCED" if v else "not reproduced on the current tree")
     return 1 if v else 0
@@ -120,7 +132,7 @@ def witness_sweep(prop, units, registry):
             outdir = os.path.join(ROOT, "replays"); os.makedirs(outdir, exist_ok=True)
             path = os.path.join(outdir, f"{prop}-witness-{hashlib.sha256(json.dumps(w, sort_keys=True).encode()).hexdigest()[:10]}.json")
             json.dump(dict(property=prop, obligation=pref + " (verifier undecided on this tree; witness program failed on the real library)", found_input=True,
-                           failing_input=dict(src=w["src"], opts=w.get("opts"), range=w.get("range"), oracle=w.get("oracle", "tree"), contains=w.get("contains"), result=j)),
+                           failing_input=dict(src=w.get("src"), kind=w.get("kind"), scenario=w.get("scenario"), opts=w.get("opts"), range=w.get("range"), oracle=w.get("oracle", "tree"), contains=w.get("contains"), result=j)),
                       open(path, "w"), indent=1)
             return path
     return None
